@@ -4,10 +4,10 @@
    "no tiebreak up to the round asked for", the refutation of that weakening for the STV rounds of
    Alaska, and STV with ANY transfer rule (the random one included) on rounds before any draw. *)
 From Coq Require Import List ZArith QArith Bool Permutation Lia.
-From VK Require Import Base Core STV Pairwise Rules PV Election.
+From VK Require Import Base Core STV Pairwise Rules PV Election Election2.
 From VK.Spec Require Import STVSpec QuerySpec TieSpec ScoreSpec PairwiseSpec RunSpec ReplaySpec QuietSpec.
 From VK.Proofs Require Import Lib_sets C04_scoring Elect C10_script C10_quiet C09_queries
-  STV_inv C20_validation C05_rating C12_edit C13_composite C09_replay C06_tiers C01_rules.
+  STV_inv C20_validation C05_rating C12_edit C13_composite C09_replay C06_tiers C01_rules C09_status.
 Import ListNotations.
 
 Section Replay2.
@@ -193,6 +193,244 @@ Proof.
       apply (removed_cands p np (flat el) (flat rem) true false (proj1 Hdom)); [|exact Hne|exact Hnp].
       rewrite <- flat_app, Hsplit.
       exact (proj1 (c06_tiers_partition_proof cand ceqb ceqb_spec p Hdom tiers Htiers)).
+Qed.
+
+(* ------------------------------------------------------------------ *)
+(** * TopTwo: only the rounds up to the one asked for must be free of tiebreaks *)
+
+Theorem toptwo_get_profile_upto : forall tb (p : profile) (s s' : mstate) sts,
+  NoDup (cands p) -> run_toptwo tb p s = inl (sts, s') ->
+  exists s0 s1 s2 p1,
+    sts = [s0; s1; s2] /\
+    remove_cand_prof (flat (eliminated s1)) true false p = inl p1 /\
+    forall i, in_range 3 i -> Forall no_tiebreak (firstn (S (round_of 3 i)) sts) ->
+      exists pr st,
+        nth_error sts (round_of 3 i) = Some st /\
+        (round_of 3 i = 0%nat -> pr = p) /\ (round_of 3 i = 1%nat -> pr = p1) /\
+        (round_of 3 i = 2%nat -> remove_cand_prof (flat (elected st)) true false p1 = inl pr) /\
+        (forall sx : mstate, get_profile (RTopTwo tb) p sts i sx = inl (pr, sx)) /\
+        first_place_votes pr = inl (escores st) /\
+        Permutation (cands pr) (flat (remaining st)).
+Proof.
+  intros tb p s s' sts Hnd H. apply c13_toptwo_proof in H.
+  destruct H as [s0 [p1 [s1 [sa [q0 [q1 [sb [x [H1 [H2 [H3 [H4 [H5 ->]]]]]]]]]]]]].
+  destruct (plurality_stage_spec cand ceqb ceqb_spec _ _ _ _ _ _ _ _ Hnd H3)
+    as [d0 [el [rem [t [r0 [r1 [_ [_ [_ [_ [Hd0 [_ [_ [_ [_ [Hnp [Hd1 [Hr1 [Hrem1
+        [_ [Helim1 [_ [Hperm [Hndp1 Hlen]]]]]]]]]]]]]]]]]]]]]]]].
+  destruct (round0_fpv cand ceqb p s0 H2) as [Hst0 Hrnd0].
+  set (s2 := mkState 2 (remaining q1) (elected q1) (eliminated q1) (tiebreaks q1) (escores q1)).
+  exists s0, s1, s2, p1. split; [reflexivity|]. split; [rewrite Helim1; exact Hnp|].
+  intros i Hin Hq. destruct (norm_index_in 3 i Hin) as [En Hlt].
+  assert (Hgen : forall sx : mstate, get_profile (RTopTwo tb) p [s0; s1; s2] i sx
+           = replay_steps (RTopTwo tb) p p (firstn (round_of 3 i) [s0; s1; s2]) sx).
+  { intros sx. apply get_profile_generic; [discriminate|discriminate|exact En]. }
+  destruct (round_of 3 i) as [|[|[|r]]]; [| | |lia].
+  - exists p, s0. split; [reflexivity|]. split; [reflexivity|]. split; [discriminate|].
+    split; [discriminate|]. split; [intros sx; rewrite Hgen; reflexivity|].
+    split; [exact (proj1 Hst0)|apply (state_of_cands cand ceqb); exact Hst0].
+  - cbn [firstn] in Hq. apply Forall_cons_inv in Hq. destruct Hq as [_ Hq].
+    apply Forall_cons_inv in Hq. destruct Hq as [Hq1 _].
+    pose proof (plurality_stage_quiet _ _ _ _ _ _ _ _ _ _ H3 Hq1) as E. subst sa.
+    assert (Hstage : forall sx : mstate, plurality_stage 2 tb p s0 sx = inl ((p1, s1), sx)).
+    { intros sx. exact (local_no_draw_state cand _ _ (Local_plurality_stage cand ceqb _ _ _ _) _ _ H3 sx). }
+    exists p1, s1. split; [reflexivity|]. split; [discriminate|]. split; [reflexivity|].
+    split; [discriminate|]. split.
+    + intros sx. rewrite Hgen. cbn [firstn Election.replay_steps]. unfold mbind.
+      rewrite (toptwo_step0 cand ceqb tb p p1 s0 s1 sx Hrnd0 (Hstage sx)). reflexivity.
+    + split; [exact Hd1|rewrite Hrem1; exact Hperm].
+  - cbn [firstn] in Hq. apply Forall_cons_inv in Hq. destruct Hq as [_ Hq].
+    apply Forall_cons_inv in Hq. destruct Hq as [Hq1 Hq].
+    apply Forall_cons_inv in Hq. destruct Hq as [Hq2 _].
+    unfold TieSpec.no_tiebreak in Hq2. cbn [s2 tiebreaks] in Hq2.
+    pose proof (plurality_stage_quiet _ _ _ _ _ _ _ _ _ _ H3 Hq1) as E. subst sa.
+    assert (Hstage : forall sx : mstate, plurality_stage 2 tb p s0 sx = inl ((p1, s1), sx)).
+    { intros sx. exact (local_no_draw_state cand _ _ (Local_plurality_stage cand ceqb _ _ _ _) _ _ H3 sx). }
+    destruct (plurality_last_stage cand ceqb ceqb_spec 1 tb p1 s sb q0 q1 Hndp1 ltac:(lia) H4 Hq2)
+      as [E [p2 [Hstep [Hnp2 [Hd2 Hperm2]]]]]. subst sb.
+    assert (Hplur : forall sx : mstate, run_plurality 1 tb p1 sx = inl ([q0; q1], sx)).
+    { intros sx. exact (local_no_draw_state cand _ _ (Local_run_plurality cand ceqb _ _ _) _ _ H4 sx). }
+    exists p2, s2. split; [reflexivity|]. split; [discriminate|]. split; [discriminate|].
+    split; [intros _; exact Hnp2|]. split.
+    + intros sx. rewrite Hgen. cbn [firstn Election.replay_steps]. unfold mbind.
+      rewrite (toptwo_step0 cand ceqb tb p p1 s0 s1 sx Hrnd0 (Hstage sx)).
+      rewrite (toptwo_step1 cand ceqb tb p p1 p2 s1 q0 q1 sx ltac:(rewrite Hr1, Hrnd0; reflexivity)
+                 (Hplur sx) (Hstep sx)).
+      reflexivity.
+    + split; [exact Hd2|exact Hperm2].
+Qed.
+
+(* ------------------------------------------------------------------ *)
+(** * Alaska, rounds 0 and 1: any transfer rule, only the Plurality stage must be free of tiebreaks *)
+
+Theorem alaska_get_profile_stage : forall m1 m2 cfg (p : profile) (s s' : mstate) sts,
+  NoDup (cands p) -> run_alaska m1 m2 cfg p s = inl (sts, s') ->
+  exists s0 s1 rest p1,
+    sts = s0 :: s1 :: rest /\
+    remove_cand_prof (flat (eliminated s1)) true false p = inl p1 /\
+    forall i, in_range (length sts) i -> (round_of (length sts) i <= 1)%nat ->
+      Forall no_tiebreak (firstn (S (round_of (length sts) i)) sts) ->
+      exists pr st,
+        nth_error [p; p1] (round_of (length sts) i) = Some pr /\
+        nth_error sts (round_of (length sts) i) = Some st /\
+        (forall sx : mstate, get_profile (RAlaska m1 m2 cfg) p sts i sx = inl (pr, sx)) /\
+        first_place_votes pr = inl (escores st) /\
+        Permutation (cands pr) (flat (remaining st)).
+Proof.
+  intros m1 m2 cfg p s s' sts Hnd H. apply c13_alaska_proof in H.
+  destruct H as [s0 [p1 [s1 [sa [t [ssts [sb [pf [_ [_ [H3 [H4 [_ [_ [_ ->]]]]]]]]]]]]]]].
+  destruct (plurality_stage_spec cand ceqb ceqb_spec _ _ _ _ _ _ _ _ Hnd H4)
+    as [d0 [el [rem [tt0 [r0 [r1 [_ [_ [_ [_ [Hd0 [_ [_ [_ [_ [Hnp [Hd1 [Hr1 [Hrem1
+        [_ [Helim1 [_ [Hperm [Hndp1 Hlen]]]]]]]]]]]]]]]]]]]]]]]].
+  destruct (round0_fpv cand ceqb p s0 H3) as [Hst0 Hrnd0].
+  exists s0, s1, (map (bump cand) (tl ssts)), p1. split; [reflexivity|].
+  split; [rewrite Helim1; exact Hnp|].
+  set (sts := s0 :: s1 :: map (bump cand) (tl ssts)) in *.
+  intros i Hin Hle Hq. destruct (norm_index_in _ i Hin) as [En Hlt].
+  destruct (round_of (length sts) i) as [|[|k]]; [| |lia].
+  - exists p, s0. split; [reflexivity|]. split; [reflexivity|]. split.
+    + intros sx. unfold Election.get_profile. rewrite mbind_mlift, En. reflexivity.
+    + split; [exact (proj1 Hst0)|apply (state_of_cands cand ceqb); exact Hst0].
+  - unfold sts in Hq. cbn [firstn] in Hq. apply Forall_cons_inv in Hq. destruct Hq as [_ Hq].
+    apply Forall_cons_inv in Hq. destruct Hq as [Hq1 _].
+    pose proof (plurality_stage_quiet _ _ _ _ _ _ _ _ _ _ H4 Hq1) as E. subst sa.
+    assert (Hstage : forall sx : mstate,
+              plurality_stage m1 (s_tiebreak cfg) p s0 sx = inl ((p1, s1), sx)).
+    { intros sx. exact (local_no_draw_state cand _ _ (Local_plurality_stage cand ceqb _ _ _ _) _ _ H4 sx). }
+    exists p1, s1. split; [reflexivity|]. split; [reflexivity|]. split.
+    + intros sx. unfold Election.get_profile. rewrite mbind_mlift, En.
+      unfold sts. cbn [firstn Election.replay_steps]. unfold mbind.
+      rewrite (alaska_step0 cand ceqb m1 m2 cfg p p1 s0 s1 sx (Hstage sx)). reflexivity.
+    + split; [exact Hd1|rewrite Hrem1; exact Hperm].
+Qed.
+
+(* ------------------------------------------------------------------ *)
+(** * STV with any transfer rule: a quiet round consumes nothing *)
+
+Lemma simultaneous_elect_nobody : forall cfg t (p : profile) prev (s s' : mstate) el np,
+  simultaneous_elect cand ceqb cfg t p prev s = inl ((el, np), s') -> flat el = [] -> s' = s.
+Proof.
+  intros cfg t p prev s s' el np H Hnil. unfold STV.simultaneous_elect in H.
+  apply C10_quiet.mbind_lift_inv in H. destruct H as [el0 [_ H]].
+  apply C10_quiet.mbind_lift_inv in H. destruct H as [[] [_ H]]. cbv zeta in H.
+  apply mbind_ok_inv in H. destruct H as [moved [s1 [Hm H]]].
+  destruct (negb (subsetb cand ceqb _ (cands p))); [discriminate|].
+  apply C10_quiet.mbind_lift_inv in H. destruct H as [np' [_ H]].
+  apply mret_ok_inv in H. destruct H as [Heq ->]. inversion Heq; subst el0 np'.
+  rewrite Hnil in Hm. cbn [STV.transfer_all] in Hm. apply mret_ok_inv in Hm. exact (proj2 Hm).
+Qed.
+
+Lemma stv_step_quiet_gen : forall cfg t p0 n (p : profile) prev (s s' : mstate) np st,
+  stv_step cfg t p0 n p prev s = inl ((np, st), s') -> quiet_round cfg st -> s' = s.
+Proof.
+  intros cfg t p0 n p prev s s' np st H [Hq Hr].
+  destruct (s_transfer cfg) eqn:Hk.
+  - apply (stv_step_quiet cand ceqb cfg t p0 n p prev s s' np st); [rewrite Hk; discriminate|exact H|exact Hq].
+  - specialize (Hr eq_refl). unfold STV.stv_step in H. cbv zeta in H.
+    apply mbind_ok_inv in H. destruct H as [[[[el elim] tbs] np0] [s1 [Hb H]]].
+    apply C10_quiet.mbind_lift_inv in H. destruct H as [d [Hd H]].
+    apply mret_ok_inv in H. destruct H as [Heq ->]. inversion Heq; subst np0 st. clear Heq.
+    cbn [STV.state_of_scores tiebreaks elected] in Hq, Hr. subst tbs.
+    destruct (filter (fun q => Qle_bool t (snd q)) (escores prev)) as [|q0 above].
+    + destruct (Z.eqb _ _).
+      * apply mret_ok_inv in Hb. exact (proj2 Hb).
+      * destruct (rev (remaining prev)) as [|lowest rest]; [discriminate|].
+        apply mbind_ok_inv in Hb. destruct Hb as [[x tbs0] [s2 [Hx Hb]]].
+        apply C10_quiet.mbind_lift_inv in Hb. destruct Hb as [np1 [_ Hb]].
+        apply mret_ok_inv in Hb. destruct Hb as [Heq ->]. inversion Heq; subst. clear Heq.
+        destruct lowest as [|c [|c' g]]; [discriminate| |].
+        -- apply mret_ok_inv in Hx. exact (proj2 Hx).
+        -- apply mbind_ok_inv in Hx. destruct Hx as [tb [s3 [_ Hx]]].
+           destruct (rev tb) as [|[|c0 g0] rest0]; discriminate.
+    + destruct (s_simul cfg).
+      * apply mbind_ok_inv in Hb. destruct Hb as [[el0 np1] [s2 [Hs Hb]]].
+        apply mret_ok_inv in Hb. destruct Hb as [Heq ->]. inversion Heq; subst. clear Heq.
+        exact (simultaneous_elect_nobody _ _ _ _ _ _ _ _ Hs Hr).
+      * exfalso. apply mbind_ok_inv in Hb. destruct Hb as [[[el0 tbs0] np1] [s2 [Hs Hb]]].
+        apply mret_ok_inv in Hb. destruct Hb as [Heq ->]. inversion Heq; subst. clear Heq.
+        unfold STV.single_elect in Hs.
+        apply mbind_ok_inv in Hs. destruct Hs as [[[el1 rem] tb] [s1 [_ Hs]]]. cbv zeta in Hs.
+        apply C10_quiet.mbind_lift_inv in Hs. destruct Hs as [[] [_ Hs]].
+        destruct el1 as [|[|w g] el']; try discriminate.
+        destruct (negb (memb cand ceqb w (cands p))); [discriminate|].
+        apply mbind_ok_inv in Hs. destruct Hs as [moved [s3 [_ Hs]]].
+        destruct (negb (subsetb cand ceqb (flat rem) (cands p))); [discriminate|].
+        apply C10_quiet.mbind_lift_inv in Hs. destruct Hs as [np' [_ Hs]].
+        apply mret_ok_inv in Hs. destruct Hs as [Heq _]. inversion Heq; subst. discriminate.
+  - apply (stv_step_quiet cand ceqb cfg t p0 n p prev s s' np st); [rewrite Hk; discriminate|exact H|exact Hq].
+Qed.
+
+Lemma replay_from_gen : forall cfg t (p0 : profile) sts ps ss,
+  stv_trace cfg t p0 sts ps ss ->
+  forall n j pj pjn,
+    nth_error ps j = Some pj -> nth_error ps (j + n) = Some pjn ->
+    (forall i st, (j < i <= j + n)%nat -> nth_error sts i = Some st -> quiet_round cfg st) ->
+    forall s2 : mstate,
+      stv_replay cfg t p0 (firstn j sts) pj (firstn n (skipn j sts)) s2 = inl (pjn, s2).
+Proof.
+  intros cfg t p0 sts ps ss [Hlp [Hls [Hso Hstep]]].
+  induction n as [|n IH]; intros j pj pjn Hpj Hpjn Hq s2.
+  - rewrite Nat.add_0_r in Hpjn. rewrite Hpj in Hpjn. inversion Hpjn; subst. reflexivity.
+  - pose proof (nth_error_lt _ _ _ Hpjn) as Hlt.
+    destruct (nth_error_ex sts j ltac:(lia)) as [stj Hstj].
+    destruct (nth_error_ex sts (S j) ltac:(lia)) as [stj1 Hstj1].
+    destruct (nth_error_ex ps (S j) ltac:(lia)) as [pj1 Hpj1].
+    destruct (nth_error_ex ss j ltac:(lia)) as [sa Hsa].
+    destruct (nth_error_ex ss (S j) ltac:(lia)) as [sb Hsb].
+    pose proof (Hstep j pj stj sa pj1 stj1 sb Hpj Hstj Hsa Hpj1 Hstj1 Hsb) as Hs.
+    assert (Hq1 : quiet_round cfg stj1) by (apply (Hq (S j)); [lia|exact Hstj1]).
+    pose proof (stv_step_quiet_gen _ _ _ _ _ _ _ _ _ _ Hs Hq1) as Esb. subst sb.
+    rewrite (skipn_nth_error sts j stj Hstj). cbn [firstn Rules.stv_replay].
+    rewrite <- (firstn_S_nth_error sts j stj Hstj).
+    unfold mbind at 1.
+    rewrite (local_no_draw_state cand _ _ (Local_stv_step cand ceqb _ _ _ _ _ _) _ _ Hs s2).
+    apply (IH (S j) pj1 pjn Hpj1).
+    + replace (S j + n)%nat with (j + S n)%nat by lia. exact Hpjn.
+    + intros i st Hi Hst. apply (Hq i st); [lia|exact Hst].
+Qed.
+
+(* STV, every transfer rule, every input on which the run succeeded: a round r such that rounds
+   0..r are quiet is answered, from every state of the random source and leaving it untouched, by
+   the profile the run had after round r *)
+Theorem stv_get_profile_quiet : forall cfg (p : profile) (s s' : mstate) sts,
+  run_stv cfg p s = inl (sts, s') ->
+  forall i, in_range (length sts) i ->
+  Forall (quiet_round cfg) (firstn (S (round_of (length sts) i)) sts) ->
+  exists pr st,
+    nth_error sts (round_of (length sts) i) = Some st /\
+    (forall s2 : mstate, get_profile (RSTV cfg) p sts i s2 = inl (pr, s2)) /\
+    Permutation (cands pr) (flat (remaining st)) /\
+    first_place_votes pr = inl (escores st) /\
+    score_to_ranking (escores st) true = remaining st.
+Proof.
+  intros cfg p s s' sts H i Hin Hq.
+  destruct (stv_run_trace cand ceqb cfg p s s' sts H) as [t [ps [ss [Ht [Htr [Hp0 _]]]]]].
+  destruct (norm_index_in _ _ Hin) as [En Hlt]. set (r := round_of (length sts) i) in *.
+  pose proof Htr as [Hlp _].
+  destruct (nth_error_ex ps r ltac:(lia)) as [pr Hpr].
+  destruct (nth_error_ex sts r Hlt) as [st Hst].
+  exists pr, st. split; [exact Hst|]. split.
+  - intros s2. unfold Election.get_profile. rewrite mbind_mlift, En. rewrite mbind_mlift, Ht.
+    apply (replay_from_gen cfg t p sts ps ss Htr r 0%nat p pr Hp0 Hpr).
+    intros j stj Hj Hstj. apply (Forall_firstn_nth _ sts (S r) j stj Hq); [lia|exact Hstj].
+  - destruct (stv_trace_rescoring cand ceqb cfg t p sts ps ss r pr st Htr Hpr Hst) as [Hd [Hrk Hperm]].
+    split; [exact Hperm|]. split; [exact Hd|exact Hrk].
+Qed.
+
+(* the same through get_step: the profile and the record returned belong together *)
+Theorem stv_get_step_quiet : forall cfg (p : profile) (s s' : mstate) sts,
+  run_stv cfg p s = inl (sts, s') ->
+  forall i, in_range (length sts) i ->
+  Forall (quiet_round cfg) (firstn (S (round_of (length sts) i)) sts) ->
+  exists pr st,
+    (forall s2 : mstate, get_step cand ceqb (RSTV cfg) p sts i s2 = inl ((pr, st), s2)) /\
+    nth_error sts (round_of (length sts) i) = Some st /\
+    Permutation (cands pr) (flat (remaining st)) /\
+    first_place_votes pr = inl (escores st).
+Proof.
+  intros cfg p s s' sts H i Hin Hq.
+  destruct (stv_get_profile_quiet cfg p s s' sts H i Hin Hq) as [pr [st [Hst [Hget [Hperm [Hd _]]]]]].
+  exists pr, st. split; [|split; [exact Hst|split; [exact Hperm|exact Hd]]].
+  intros s2. apply (get_step_ok_iff cand ceqb). split; [exact (Hget s2)|exact Hst].
 Qed.
 
 End Replay2.
